@@ -1,1 +1,74 @@
-From Verif Require Import Base Tie.
+(* C03 -- the common-effects matrix has full column rank and spans exactly the model space.
+   The statement factors into (a) WHICH coding each term receives -- a combinatorial analysis
+   (Model/Contrasts.v, mirroring formulae/contrasts.py) -- and (b) what a coding spans
+   (LinAlg/Contrast.v, see C13).  In the tensor basis (constant | contrast) per factor, a block
+   coded with reduced factors R and full factors F spans exactly the coordinate subspaces whose
+   support S satisfies R <= S <= R + F (its interval, [inI]); the columns of a model are linearly
+   independent and span the space of the complete indicator coding iff the intervals of all
+   codings PARTITION the union of the down-closures of the terms.  That partition is proved here
+   for every group of terms, in every order, of any size.
+   Not proved in Coq (named gap): the tensor bridge "interval partition => row_free and equal
+   column space" for the Kronecker construction, and the caller's restriction to ONE coding per
+   term (Model.eval takes encodings[name][0]); the correspondence and the exact-rank oracle of
+   the C03 check cover those on complete-factorial data. *)
+From Verif Require Import Base Contrasts ContrastsPartition.
+From Verif Require Tie.
+
+Theorem C03_pick_contrasts_partition :
+  forall group : list (string * list factor),
+    NoDup (map fst group) ->
+    Forall (fun g => NoDup (snd g)) group ->
+    exists result,
+      pick_contrasts group = Ok result /\
+      map fst result = map fst group /\
+      terms_spec [] group result /\
+      (forall S0, cnt (all_codings result) S0 =
+                  (if existsb (subsetb S0) (map snd group) then 1 else 0)) /\
+      ForallOrdPairs disjI (all_codings result).
+Proof. exact pick_contrasts_partition. Qed.
+
+(* every subset of every term's factors is covered by exactly one coding *)
+Theorem C03_covered_exactly_once :
+  forall group result S,
+    NoDup (map fst group) ->
+    Forall (fun g => NoDup (snd g)) group ->
+    pick_contrasts group = Ok result ->
+    existsb (subsetb S) (map snd group) = true ->
+    exists l1 c l2,
+      all_codings result = (l1 ++ c :: l2)%list /\ inI c S = true /\
+      (forall d, In d l1 \/ In d l2 -> inI d S = false).
+Proof. exact pick_contrasts_exists_unique. Qed.
+
+(* the Python assertions inside Subterm.absorb can never fail, and the fuel is enough *)
+Theorem C03_absorb_never_fails :
+  forall long short,
+    wf long -> wf short -> can_absorb long short = true ->
+    (forall S, inI short S && inI long S = false) -> absorb long short <> None.
+Proof. exact absorb_never_fails. Qed.
+
+Theorem C03_simplify_preserves :
+  forall fuel l,
+    Forall wf l -> (forall S0, cnt l S0 <= 1) -> List.length l <= S fuel ->
+    exists l', simplify fuel l = Ok l' /\ Forall wf l' /\
+               (forall S, cnt l' S = cnt l S) /\ simplify_step [] l' = None.
+Proof. exact simplify_preserves. Qed.
+
+(* Non-vacuity and the known limitation: with an intercept, f:g:h receives FOUR codings; the
+   caller (Model.eval) applies only the first one (finding KF-C03-2). *)
+Example C03_example_two_factor :
+  pick_contrasts [("Intercept"%string, []); ("f"%string, ["f"%string]);
+                  ("f:g"%string, ["f"%string; "g"%string])]
+  = Ok [("Intercept"%string, [[]]); ("f"%string, [[("f"%string, false)]]);
+        ("f:g"%string, [[("g"%string, false); ("f"%string, true)]])].
+Proof. vm_compute. reflexivity. Qed.
+
+Example C03_refuted_single_coding :
+  exists r cods, pick_contrasts [("Intercept"%string, []);
+                                 ("f:g:h"%string, ["f"%string; "g"%string; "h"%string])] = Ok r /\
+                 dict_get "f:g:h"%string r = Some cods /\ List.length cods = 4.
+Proof. eexists. eexists. repeat split; vm_compute; reflexivity. Qed.
+
+Print Assumptions C03_pick_contrasts_partition.
+Print Assumptions C03_covered_exactly_once.
+Print Assumptions C03_absorb_never_fails.
+Print Assumptions C03_simplify_preserves.
